@@ -169,7 +169,27 @@ pub fn archives(srcs: &SrcCache) -> Vec<DamageArchive> {
             opts,
         }
     };
-    vec![
+    let many = {
+        // 150 one-block files and 150 duplicates of them: several blocks share a sub-directory,
+        // and one restore reads more blocks than the cache holds
+        let mut t = crate::tree::empty_tree();
+        for round in 0..2 {
+            for i in 0..150u32 {
+                t.insert(format!("r{round}f{i:03}"), crate::tree::Node::file(format!("{i:08}").as_bytes(), crate::tree::T0 + 80 + i as i64));
+            }
+        }
+        let opts = BOpts::new(100, 8, 3);
+        let scn = common::build_scenario("A6-many-blocks", &[Step::Backup(t.clone(), opts.clone())], t.clone(), opts.clone(), srcs);
+        DamageArchive {
+            name: "A6-many-blocks".to_string(),
+            snap: scn.pre,
+            band_src: scn.band_src,
+            complete: scn.complete,
+            src: t,
+            opts,
+        }
+    };
+    let mut out = vec![
         mk(
             "A1-b0(T1)+b1(T2)-small-blocks",
             &[Step::Backup(t1.clone(), s.clone()), Step::Backup(t2.clone(), s.clone())],
@@ -185,7 +205,9 @@ pub fn archives(srcs: &SrcCache) -> Vec<DamageArchive> {
             &[Step::Backup(t1.clone(), BOpts::defaults()), Step::Backup(t2.clone(), BOpts::defaults())],
             BOpts::defaults(),
         ),
-    ]
+    ];
+    out.push(many);
+    out
 }
 
 /// What restoring a band gives: (returned ok, reported nothing, observed tree).
@@ -256,14 +278,29 @@ pub fn baseline(a: &DamageArchive, scratch: &Scratch) -> Baseline {
 /// The cases of one archive: every file x 4 damages, plus bit flips.
 pub fn cases(a: &DamageArchive, flip_files: &dyn Fn(&str) -> bool, stride: usize, offset: usize, include_header: bool) -> Vec<(String, Damage)> {
     let mut v = Vec::new();
+    // An archive with hundreds of blocks (A6) is damaged only where its size matters: block files
+    // that share their sub-directory with another block file, and the index hunks; no bit flips.
+    let big = a.snap.files.len() > 100;
+    let crowded = |f: &str| -> bool {
+        f.starts_with("d/") && {
+            let sub = &f[..f.rfind('/').unwrap_or(0)];
+            a.snap.files.keys().filter(|g| g.starts_with(sub) && g[sub.len()..].starts_with('/')).count() >= 2
+        }
+    };
     for (f, bytes) in &a.snap.files {
         if f == "CONSERVE" && !include_header {
             continue;
         }
+        if big && !(crowded(f) || f.contains("/i/")) {
+            continue;
+        }
         for d in [Damage::Delete, Damage::Truncate0, Damage::TruncateHalf, Damage::Garbage] {
+            if big && f.starts_with("d/") && matches!(d, Damage::TruncateHalf | Damage::Garbage) {
+                continue;
+            }
             v.push((f.clone(), d));
         }
-        if flip_files(f) {
+        if flip_files(f) && !big {
             let nbits = bytes.len() * 8;
             let mut bit = offset % stride.max(1);
             while bit < nbits {
@@ -368,6 +405,27 @@ pub fn c09_healthy(tr: &Transition) -> Vec<Violation> {
     v
 }
 
+pub fn replay_large(case: &Value) -> Vec<Violation> {
+    let tag = case["tag"].as_str().unwrap_or("");
+    let scratch = Scratch::new("replay");
+    let mut v = Vec::new();
+    for c in crate::c01::cases(true).into_iter().filter(|c| c.tag == tag) {
+        let t = (c.tree)();
+        let src = scratch.fresh("src");
+        tree::materialize(&t, &src);
+        let arch = scratch.fresh("a");
+        run::do_create_archive(&arch);
+        let _ = run::do_backup(&arch, &src, &c.opts, run::NOHOOK, Flavor::Current);
+        for quick in [false, true] {
+            let o = run::do_validate(&arch, quick, run::NOHOOK);
+            if !o.clean() {
+                v.push(Violation::new(format!("C09:validate-reports-error-on-healthy-archive:{}", if quick { "quick" } else { "full" }), format!("{tag}: {}", o.describe())));
+            }
+        }
+    }
+    v
+}
+
 pub fn run_c09(report: &Report, budget: &Budget) {
     let thorough = report.thorough();
     // Healthy side
@@ -375,6 +433,38 @@ pub fn run_c09(report: &Report, budget: &Budget) {
     let hb = crate::util::sub_budget(if thorough { 500 } else { 20 });
     let st = hist::explore(report, &hb, "C09", depth, thorough, false, thorough, &c09_healthy, None, None);
     hist::write_stats(report, &st, depth);
+    // Healthy side, the inputs of unusual size: archives of the "large" cases of the C01 input sweep
+    // (hundreds of blocks, thousands of hunks, blocks above 2 MiB, deep and wide trees ...)
+    {
+        let scratch = Scratch::new("c09large");
+        let mut n = 0;
+        for c in crate::c01::cases(thorough).into_iter().filter(|c| c.sweep == "large" || c.sweep == "rollover") {
+            let t = (c.tree)();
+            let src = scratch.fresh("src");
+            tree::materialize(&t, &src);
+            let arch = scratch.fresh("a");
+            run::do_create_archive(&arch);
+            let b = run::do_backup(&arch, &src, &c.opts, run::NOHOOK, Flavor::Current);
+            if !b.clean_success() {
+                continue; // C01's business
+            }
+            n += 1;
+            for quick in [false, true] {
+                let o = run::do_validate(&arch, quick, run::NOHOOK);
+                if !o.clean() {
+                    report.violation(
+                        &Violation::new(
+                            format!("C09:validate-reports-error-on-healthy-archive:{}", if quick { "quick" } else { "full" }),
+                            format!("fault-free backup of {}: {}", c.tag, o.describe()),
+                        ),
+                        &json!({"kind": "c09-large", "tag": c.tag}),
+                    );
+                }
+            }
+            scratch.clear();
+        }
+        report.set("healthy_archives_of_unusual_size", json!(n));
+    }
     // Damage side
     let srcs = SrcCache::new();
     let arcs = archives_for(&srcs, thorough);
